@@ -22,6 +22,19 @@ CHECKS['C09'] = {
 	'ref': 'DESIGN.md §5 C09, §10',
 }
 
+CHECKS['C19'] = {
+	'text': 'Lean theorems over an executable model of DI/LazyDI (dictionaries exactly as the code keeps them, heap of containers, fuelled resolution): forward simulation onto a per-symbol Spec for every op sequence (refine, run_refines); singleton per binding generation; rebind freshness; frame of combine/clone; per-clone lazy materialisation; ValueError on unknown symbols; combine_right and invoke_fill for every history (true since the fix commits c3fd82c, 6d5a231); fuel sufficiency on ranked histories. Tied to the code by a differential op-sequence stream and searched against an independent Python reference of the ideal Spec.',
+	'note': TB + ' Generation counters are replaced by trace conditions. Dict non-aliasing is by correspondence (value-semantics model). Symbols are assumed importable with distinct full names; factories take positional parameters without defaults.',
+	'technique': 'Lean 4 refinement proof (forward simulation + invariants by induction over op lists and fuel) + differential correspondence + reference-model search',
+	'ref': 'DESIGN.md §5 C19, §10',
+}
+CHECKS['C13'] = {
+	'text': 'Lean theorems over an executable model of tranp Lexer/Tokenizer/SourceMap parameterised by TokenDefinition() and gram_tokenizer() as dumped on every run: progress (termination), concat (raw tokens reproduce the source), totality over the alphabet, the span law, INDENT/DEDENT accounting (balanced iff every increase is one unit; counterexample for over-indented blocks), width invariance of _rebuild, post_filter on single logical lines. Tied to the code by three correspondence streams (generated sources, real modules and grammar files, malformed sources and token lists). Equality with CPython tokenize on the documented subset, layout rewrites, balance and the concat/span laws are searched on the real code.',
+	'note': TB + ' The full token-level layout sentence (across line breaks) and the character-level rewrites are search-only. CPython 3.12 tokenize is the oracle on the documented lexical subset (harness/lexgen.py).',
+	'technique': 'Lean 4 proof (induction over fuel / token lists, decide over generated tables) + differential correspondence + metamorphic and CPython-oracle search',
+	'ref': 'DESIGN.md §5 C13, §10',
+}
+
 NOT_YET = {
 }
 
